@@ -3,6 +3,7 @@
 -/
 import Proofs.Lock
 import Generated.Locks
+import Proofs.Linearize
 namespace Sod.Props
 open Sod.Lock
 
@@ -25,5 +26,39 @@ theorem C08_race_free {s0 s : State} (h0 : Initial s0) (r : Reach s0 s)
     (hta : ∀ c m, (c, m) ∈ a.held → ((c, inst c), m) ∈ t.held)
     (hub : ∀ c m, (c, m) ∈ b.held → ((c, inst c), m) ∈ u.held) : False :=
   Sod.Lock.C08_race_free h0 r Generated.Locks.accesses C08_accesses_covered a b ha hb hcf i j t u hij hi hj inst hta hub
+
+/-- calls which are, by their contract, a SEQUENCE of critical sections: the chunked insert applies
+    one `InsertOrUpdateMany` per chunk (C07), the flusher is a loop of polls -/
+def composite : List String := ["DB.InsertOrUpdateBulk", "go:DB.startAsyncWritesRoutine"]
+
+/-- REGENERATED on every run: every other exported call, on every path, takes the handle lock at
+    most once — it is ONE critical section (so `C08_linearizable` applies to it) -/
+theorem C08_one_section :
+    Generated.Locks.sections.all (fun p => p.2 ≤ 1 || composite.contains p.1) = true := by decide
+
+/-- calls that run as one critical section of a readers/writer lock are linearizable: every
+    interleaving of their micro-steps gives every call the result, and the shared state the final
+    value, of running the calls one at a time in lock-acquisition order, which contains every call
+    once and respects program order and real-time order -/
+theorem C08_linearizable {S L R : Type} (σ0 : S) (ps : List (List (Lin.Call S L R)))
+    (hwf : ∀ p ∈ ps, ∀ c ∈ p, c.WF) (s : Lin.State S L R)
+    (hrun : Lin.Steps (Lin.initial σ0 ps) s) (hfin : Lin.finished s) :
+    let order := Lin.acqOrder s.hist
+    (Lin.runSeq ps order σ0).1 = s.σ ∧
+    (∀ id res, Lin.Event.rel id res ∈ s.hist → (id, res) ∈ (Lin.runSeq ps order σ0).2) ∧
+    order.Nodup ∧
+    (∀ (i k : Nat), (∃ c, Lin.callOf ps (i, k) = some c) ↔ (i, k) ∈ order) ∧
+    (∀ (i k k' : Nat), k < k' → (i, k') ∈ order →
+       ∃ a b : Nat, order[a]? = some (i, k) ∧ order[b]? = some (i, k') ∧ a < b) ∧
+    (∀ (c d : Lin.CallId) (pr pa : Nat), Lin.posOf s.hist (Lin.isRel c) = some pr →
+       Lin.posOf s.hist (Lin.isAcq d) = some pa → pr < pa →
+       ∃ a b : Nat, order[a]? = some c ∧ order[b]? = some d ∧ a < b) :=
+  Lin.linearizable σ0 ps hwf s hrun hfin
+
+theorem C08_all_returned {S L R : Type} (σ0 : S) (ps : List (List (Lin.Call S L R)))
+    (hwf : ∀ p ∈ ps, ∀ c ∈ p, c.WF) (s : Lin.State S L R)
+    (hrun : Lin.Steps (Lin.initial σ0 ps) s) (hfin : Lin.finished s) :
+    ∀ id ∈ Lin.acqOrder s.hist, ∃ res, Lin.Event.rel id res ∈ s.hist :=
+  Lin.linearizable_all_returned σ0 ps hwf s hrun hfin
 
 end Sod.Props
